@@ -93,6 +93,7 @@ Proof.
     { pose proof (ptrlist_at_safe c true m rl0 p i Hm (conj Hwf (fun _ => Hk)) ltac:(unfold list_len; rewrite Hv; lia)) as SS.
       unfold ptrlist_at in SS. rewrite PE, Hstrict, ER in SS. cbn in SS. apply SS. reflexivity. }
     assert (AP : aligned p0) by (eapply readPtr_aligned; exact ER).
+    assert (CAP : caligned p0) by (eapply readPtr_caligned; exact ER).
     assert (SD : cdom vi = true).
     { assert (SDi : cdom (nthv vs i) = true).
       { unfold nthv. eapply forallb_In; [exact Hsd|]. apply nth_In. unfold zlen in *. lia. }
@@ -103,7 +104,7 @@ Proof.
     change (w_set_rl (dstw data0 cap0 m rl0) InSrc rl1) with (dstw data0 cap0 m rl1) in Hs0.
     destruct (canonical_ptr c fx f (dstw data0 cap0 m rl1) 0 p0) as [[w2 cp0]| | |] eqn:EC; try discriminate.
     cbn [kbind] in Hs0.
-    destruct (HQ data0 cap0 rl1 p0 vi w2 cp0 Hinv0 WP AP DP SD EC) as (body & cap2 & rl2 & -> & Hinv2 & Hcp & Henc).
+    destruct (HQ data0 cap0 rl1 p0 vi w2 cp0 Hinv0 WP AP CAP DP SD EC) as (body & cap2 & rl2 & -> & Hinv2 & Hcp & Henc).
     unfold ptrlist_set in Hs0.
     assert (PE2 : primitiveElem true cl i (mkOS 0 1) = Ok (zlen data + 8 * i)).
     { unfold primitiveElem, cl. cbn [p_valid p_len p_bit p_comp p_size p_off negb orb andb].
